@@ -14,7 +14,7 @@ COMBOS_T = COMBOS_Q + [(4, 2, [0]), (4, 3, []), (5, 1, [3]), (6, 4, [1]), (7, 5,
 def run(tier, seed, pid="C03"):
     o = vlib.Outcome(pid, tier, seed)
     thorough = tier == "thorough"
-    mc = [("QBFTMC_H3q.cfg", 900)] if not thorough else [("QBFTMC_H3q.cfg", 900), ("QBFTMC_H3r1.cfg", 1500)]
+    mc = [("QBFTMC_H3s.cfg", 900)] if not thorough else [("QBFTMC_H3s.cfg", 900), ("QBFTMC_H3q.cfg", 900), ("QBFTMC_H3r1.cfg", 1500)]
     for cfg, to in mc:
         r = vlib.tlc(pid, qc.FAMILY, "QBFTMC", cfg, timeout=to)
         vlib.require_mc_ok(r, cfg)
@@ -32,6 +32,8 @@ def run(tier, seed, pid="C03"):
     rnd += qc.random_schedules(seed, "c03b", combos[:6], 30 if thorough else 4, 400 if thorough else 220,
                                inputs_mode="any", ptimeout=8, pbyz=10, cfail_mode=True)
     vlib.conformance(o, qc.FAMILY, "QBFTTrace", qc.trace_cfg_of, "c02", rnd, tag="random")
+    vlib.conformance(o, qc.FAMILY, "QBFTTrace", qc.trace_cfg_of, "c02", qc.scenario_schedules(seed, "c03", 6 if thorough else 1),
+                     tag="scenario")
     tr = vlib.split_traces(vlib.read_ndjson(vlib.workdir(pid) + "/trace_random.ndjson"))
     vlib.binding_selftest(o, qc.FAMILY, "QBFTTrace", qc.trace_cfg_of, tr, qc.mutators())
     o.extra["decisions_observed"] = sum(1 for t in tr for e in t if e.get("ev") == "Deliver" and e.get("rule") in ("QC", "JD"))
